@@ -12,7 +12,7 @@ use midnight_circuits::{
 };
 use midnight_curves::{
     k256::{Fp as SecpFp, Fq as SecpFq, K256},
-    Fp as BlsFp, Fr as JFr, G1Projective, JubjubExtended, JubjubSubgroup,
+    Fp as BlsFp, G1Projective, JubjubExtended, JubjubSubgroup,
 };
 use midnight_proofs::{
     circuit::{Layouter, Value},
@@ -424,6 +424,7 @@ pub fn bound_rows(prover: &MockProver<F>, inst_index: usize) -> Bound {
 }
 
 pub struct Observed {
+    #[allow(dead_code)]
     pub k: u32,
     pub plain: Bound,
     pub committed: Bound,
@@ -477,6 +478,3 @@ pub fn verdict(rel: &MixRelation, items: &[Item], k: u32, com: &[F], plain: &[F]
     let prover = run_mock(rel, items, k, com.to_vec(), plain.to_vec())?;
     Ok(prover.verify().is_ok())
 }
-
-#[allow(dead_code)]
-pub fn unused(_: JFr, _: JubjubExtended) {}
